@@ -13,21 +13,21 @@ FAMILIES = {
         "mc": {"module": "MCRns", "cfg": {"quick": ["Rns-mc-quick.cfg", "Rns-mc-aux.cfg"], "thorough": ["Rns-mc-quick.cfg", "Rns-mc-aux.cfg", "Rns-mc-thorough.cfg"]},
                "bug_cfg": "Rns-mc-quick.cfg", "timeout": {"quick": 300, "thorough": 1500}},
         "sim": {"module": "SimRns", "cfg": "Rns-sim.cfg",
-                "tiers": {"quick": {"num": 120, "depth": 30, "workers": 4}, "thorough": {"num": 4000, "depth": 40, "workers": 8, "timeout": 1800}}},
+                "tiers": {"quick": {"num": 120, "depth": 30, "workers": 4}, "thorough": {"num": 2400, "depth": 40, "workers": 8, "timeout": 1800}}},
         "trace_module": "RnsTrace", "trace_cfg": "Rns-trace.cfg",
         "vh_cfg": {},
         # two name sets: label lengths 5 / 2 / 4 and 1 / 3 / 5 / 8, the latter two containing the letters of their own TLD: every price tier of both TLDs
         "variants": [{"vh_cfg": {}, "sim_subst": {}},
                      {"vh_cfg": {"names": ["x.jkl", "abc.jkl", "myjkl.jkl", "tokenibc.ibc"]},
                       "sim_subst": {"Names": '{"x.jkl", "abc.jkl", "myjkl.jkl", "tokenibc.ibc"}'}}],
-        "tiers": {"quick": {"rand": 200, "rlen": 40, "chunks": 8}, "thorough": {"rand": 6000, "rlen": 60, "chunks": 14}},
+        "tiers": {"quick": {"rand": 200, "rlen": 40, "chunks": 8}, "thorough": {"rand": 3600, "rlen": 60, "chunks": 14}},
     },
     "sd": {
         "fix_all": ["addprover", "walk", "repost"],
         "mc": {"module": "MCSD", "cfg": {"quick": "SD-mc-rewards-quick.cfg", "thorough": ["SD-mc-rewards-quick.cfg"]},
                "timeout": {"quick": 400, "thorough": 1800}},
         "sim": {"module": "SimSD", "cfg": "SD-sim.cfg",
-                "tiers": {"quick": {"num": 100, "depth": 40, "workers": 4}, "thorough": {"num": 2000, "depth": 50, "workers": 8, "timeout": 2400}}},
+                "tiers": {"quick": {"num": 100, "depth": 40, "workers": 4}, "thorough": {"num": 1200, "depth": 50, "workers": 8, "timeout": 2400}}},
         "trace_module": "SDTrace", "trace_cfg": "SD-trace.cfg",
         "variants": [
             {"vh_cfg": {"honest": "p1", "I": 3, "C": 4, "cs": 2, "fs": 2, "min": 2},
@@ -39,20 +39,20 @@ FAMILIES = {
             {"vh_cfg": {"honest": "p1", "I": 5, "C": 5, "cs": 2, "fs": 3, "min": 1},
              "sim_subst": {"PI": "5", "PC": "5", "PCS": "2", "PFS": "3", "PMIN": "1"}},
         ],
-        "tiers": {"quick": {"rand": 200, "rlen": 60, "chunks": 8}, "thorough": {"rand": 5000, "rlen": 80, "chunks": 14}},
+        "tiers": {"quick": {"rand": 200, "rlen": 60, "chunks": 8}, "thorough": {"rand": 3000, "rlen": 80, "chunks": 14}},
     },
     "sp": {
         "fix_all": ["ref", "space", "gaugeid", "sizes"],
         "mc": {"module": "MCSP", "cfg": {"quick": "SP-mc-pay-quick.cfg", "thorough": ["SP-mc-pay-quick.cfg"]},
                "timeout": {"quick": 400, "thorough": 1800}},
         "sim": {"module": "SimSP", "cfg": "SP-sim.cfg",
-                "tiers": {"quick": {"num": 100, "depth": 40, "workers": 4}, "thorough": {"num": 2000, "depth": 50, "workers": 8, "timeout": 2400}}},
+                "tiers": {"quick": {"num": 100, "depth": 40, "workers": 4}, "thorough": {"num": 1200, "depth": 50, "workers": 8, "timeout": 2400}}},
         "trace_module": "SPTrace", "trace_cfg": "SP-trace.cfg",
         # first variant: hour ticks, small amounts, at a realistic chain height (block-count arithmetic such as expiry - height only
         # shows its mistakes when the height is not close to zero); second variant: fine time, TB-scale deposits (C12 formulas only)
         "variants": [{"vh_cfg": {"h0": 5000002}, "sim_subst": {"H0": "5000002", "MAXH": "5000060"}},
                      {"vh_cfg": {"fine": True, "price": 15, "fund": 1200000000}, "sim_subst": {}}],
-        "tiers": {"quick": {"rand": 300, "rlen": 50, "chunks": 8}, "thorough": {"rand": 6000, "rlen": 60, "chunks": 14}},
+        "tiers": {"quick": {"rand": 300, "rlen": 50, "chunks": 8}, "thorough": {"rand": 3600, "rlen": 60, "chunks": 14}},
     },
     "mint": {
         "fix_all": ["clamp"],
@@ -61,16 +61,16 @@ FAMILIES = {
                  "tiers": {"quick": {"depth": 14}, "thorough": {"depth": 14}}},
         "trace_module": "MintTrace", "trace_cfg": "Mint-trace.cfg",
         "vh_cfg": {},
-        "tiers": {"quick": {"rand": 200, "rlen": 25, "chunks": 8}, "thorough": {"rand": 3000, "rlen": 40, "chunks": 14}},
+        "tiers": {"quick": {"rand": 200, "rlen": 25, "chunks": 8}, "thorough": {"rand": 1800, "rlen": 40, "chunks": 14}},
     },
     "ft": {
         "fix_all": None,
         "mc": {"module": "MCFT", "cfg": {"quick": "FT-mc-quick.cfg", "thorough": ["FT-mc-quick.cfg", "FT-mc-thorough-a.cfg", "FT-mc-thorough-b.cfg", "FT-mc-thorough-c.cfg"]}, "timeout": {"quick": 300, "thorough": 1800}},
         "sim": {"module": "SimFT", "cfg": "FT-sim.cfg",
-                "tiers": {"quick": {"num": 100, "depth": 30, "workers": 4}, "thorough": {"num": 3000, "depth": 40, "workers": 8, "timeout": 2400}}},
+                "tiers": {"quick": {"num": 100, "depth": 30, "workers": 4}, "thorough": {"num": 1800, "depth": 40, "workers": 8, "timeout": 2400}}},
         "trace_module": "FTTrace", "trace_cfg": "FT-trace.cfg",
         "vh_cfg": {},
-        "tiers": {"quick": {"rand": 300, "rlen": 40, "chunks": 8}, "thorough": {"rand": 6000, "rlen": 60, "chunks": 14}},
+        "tiers": {"quick": {"rand": 300, "rlen": 40, "chunks": 8}, "thorough": {"rand": 3600, "rlen": 60, "chunks": 14}},
     },
     "mp": {
         "fix_all": None,
@@ -83,24 +83,24 @@ FAMILIES = {
         "fix_all": ["blockentry", "overwrite"], "trace_fix": [],
         "mc": {"module": "MCNotif", "cfg": {"quick": "Notif-mc-quick.cfg", "thorough": ["Notif-mc-quick.cfg", "Notif-mc-thorough.cfg"]}, "timeout": {"quick": 300, "thorough": 1800}},
         "sim": {"module": "SimNotif", "cfg": "Notif-sim.cfg",
-                "tiers": {"quick": {"num": 100, "depth": 30, "workers": 4}, "thorough": {"num": 3000, "depth": 40, "workers": 8, "timeout": 2400}}},
+                "tiers": {"quick": {"num": 100, "depth": 30, "workers": 4}, "thorough": {"num": 1800, "depth": 40, "workers": 8, "timeout": 2400}}},
         "trace_module": "NotifTrace", "trace_cfg": "Notif-trace.cfg",
         "vh_cfg": {},
-        "tiers": {"quick": {"rand": 300, "rlen": 40, "chunks": 8}, "thorough": {"rand": 6000, "rlen": 60, "chunks": 14}},
+        "tiers": {"quick": {"rand": 300, "rlen": 40, "chunks": 8}, "thorough": {"rand": 3600, "rlen": 60, "chunks": 14}},
     },
     "gen": {
         "fix_all": ["storage/FileProof", "rns/PrimaryName", "notification/Block", "jklmint/MintedBlock"], "trace_fix": None,
         "mc": {"module": "Genesis", "cfg": {"quick": "Genesis-mc.cfg", "thorough": ["Genesis-mc.cfg"]}, "timeout": {"quick": 300, "thorough": 600}},
         "trace_module": "GenTrace", "trace_cfg": "Gen-trace.cfg",
         "vh_cfg": {},
-        "tiers": {"quick": {"rand": 48, "rlen": 2, "chunks": 8}, "thorough": {"rand": 1500, "rlen": 2, "chunks": 14}},
+        "tiers": {"quick": {"rand": 48, "rlen": 2, "chunks": 8}, "thorough": {"rand": 900, "rlen": 2, "chunks": 14}},
     },
     "chain": {
         "fix_all": ["sizes"], "trace_fix": None, "seeded_replay": True,
         "mc": {"module": "MCChain", "cfg": {"quick": "Chain-mc-quick.cfg", "thorough": ["Chain-mc-quick.cfg"]}, "timeout": {"quick": 300, "thorough": 900}},
         "trace_module": "ChainTrace", "trace_cfg": "Chain-trace.cfg",
         "vh_cfg": {},
-        "tiers": {"quick": {"rand": 48, "rlen": 120, "chunks": 8}, "thorough": {"rand": 1200, "rlen": 200, "chunks": 14}},
+        "tiers": {"quick": {"rand": 48, "rlen": 120, "chunks": 8}, "thorough": {"rand": 720, "rlen": 200, "chunks": 14}},
     },
     "ledger": {   # whole-application token ledger (spec/Ledger.tla) on ABCI histories of the assembled app
         "fix_all": ["refund", "passfee", "fullmint"], "seeded_replay": True, "vh_family": "chain",
@@ -108,7 +108,7 @@ FAMILIES = {
                "timeout": {"quick": 300, "thorough": 900}},
         "trace_module": "LedgerTrace", "trace_cfg": "Ledger-trace.cfg",
         "vh_cfg": {"ledger": True},
-        "tiers": {"quick": {"rand": 48, "rlen": 150, "chunks": 8}, "thorough": {"rand": 1200, "rlen": 200, "chunks": 14}},
+        "tiers": {"quick": {"rand": 48, "rlen": 150, "chunks": 8}, "thorough": {"rand": 720, "rlen": 200, "chunks": 14}},
     },
     "src": {   # source scan: no wall-clock / process-global randomness in module code (assumption behind C06's double execution)
         "fix_all": ["sizes"], "trace_fix": None, "needs_repo": True,
@@ -129,7 +129,7 @@ FAMILIES = {
         "mc": {"module": "MCOwn", "cfg": {"quick": ["Own-mc-quick.cfg", "Own-mc-notif.cfg"], "thorough": ["Own-mc-quick.cfg", "Own-mc-notif.cfg", "Own-mc-thorough.cfg"]}, "timeout": {"quick": 300, "thorough": 900}},
         "trace_module": "OwnTrace", "trace_cfg": "Own-trace.cfg",
         "vh_cfg": {},
-        "tiers": {"quick": {"rand": 300, "rlen": 50, "chunks": 8}, "thorough": {"rand": 6000, "rlen": 60, "chunks": 14}},
+        "tiers": {"quick": {"rand": 300, "rlen": 50, "chunks": 8}, "thorough": {"rand": 3600, "rlen": 60, "chunks": 14}},
     },
 }
 
